@@ -156,6 +156,22 @@ class Graph:
     def has_edge(self, u, v):
         return 1 <= u <= self.n and v in self.adj[u]
 
+    def remove_edge(self, u, v):
+        if not self.has_edge(u, v):
+            return
+        self.adj[u].remove(v)
+        self.adj[v].remove(u)
+        self.m -= 1
+
+    def update_vertex_number(self, new_value):
+        if not isinstance(new_value, int) or isinstance(new_value, bool):
+            raise TypeError
+        if new_value < 0:
+            raise ValueError
+        while self.n < new_value:
+            self.n += 1
+            self.adj.append([])
+
     def order(self):
         return self.n
 
